@@ -24,7 +24,7 @@ LEVEL_TEXT = ('A state is the full recursive snapshot (path, type, size, hash) o
 LEVEL_NOTE = ('trees beyond the menu are not explored; of the non-regular entries only a dangling symbolic link is included (a '
               'FIFO would block every reading mode); --clean ordering is C12')
 RULE = ('initial states = all subsets of {T1_50000001, T2_50000002, T3_50000002.bak, other.txt, archive/T4_50000004, '
-        'archive/T5_50000001, 50000001/ (directory), T6_00500A07 (id with leading zeros)}; transitions = 56 command templates; BFS to depth 2 (quick) or 3 '
+        'archive/T5_50000001, 50000001/ (directory), T6_00500A07 (id with leading zeros)}; transitions = 58 command templates; BFS to depth 2 (quick) or 3 '
         '(thorough) with snapshot deduplication. Non-trivial: transition whose model effect is not the identity, or any '
         'transition from a non-initial state; distinct by (state, command).')
 ASSUMPTIONS = ['which of several files containing the id --delete removes is not fixed']
@@ -57,6 +57,9 @@ COMMANDS = [
     ['-D'], ['-D', '-e', '.bak'], ['-j', '-c', '-E', '-o', '@out'], ['-f', '@pels/T2_50000002', '-c'], ['-l', '-P'],
     # ids of the wrong length whose digits occur in file names: with the 0x prefix making up the 8 characters, 9 digits, 7 + prefix
     ['-d', '0x500000'], ['-d', '0X0000001'], ['-d', '500000010'],
+    # --json --clean with an extension filter: a file the filter leaves out is neither converted nor removed, whichever files
+    # were converted before it in the listing (run in both listing orders)
+    ['-j', '-c', '-E', '-e', '.bak', '-o', '@out'], ['-j', '-c', '-e', '.txt'],
 ]
 
 
@@ -290,7 +293,7 @@ def run_chunk(chunk):
     while frontier:
         tree, path = frontier.popleft()
         for ci, cmd in enumerate(COMMANDS):
-            orders = ['sorted', 'reversed'] if cmd[0] in ('-d', '-i', '--bmc-id') else ['sorted']
+            orders = ['sorted', 'reversed'] if cmd[0] in ('-d', '-i', '--bmc-id') or (cmd[0] == '-j' and '-c' in cmd and '-e' in cmd) else ['sorted']
             for order in orders:
                 r, after = run_cmd(tree, cmd, order)
                 trans += 1
